@@ -48,7 +48,8 @@ def classify(violations):
 
 
 def write_replay(v):
-    d = os.path.join(VERIF, 'replays', v.prop)
+    alt = os.path.realpath(os.environ.get('VERIF_REPO', '/repo')) != '/repo'
+    d = os.path.join(VERIF, '.work', 'replays-alt', v.prop) if alt else os.path.join(VERIF, 'replays', v.prop)
     os.makedirs(d, exist_ok=True)
     body = json.dumps({'property': v.prop, 'key': v.key, 'what': v.what, 'payload': v.payload}, indent=1, sort_keys=True, default=str)
     name = hashlib.sha256(body.encode()).hexdigest()[:16] + '.json'
